@@ -78,6 +78,10 @@ pub fn exec(case: &Value) -> Vec<Value> {
     let dir = std::env::temp_dir().join(format!("tuverif-loader-{}-{:?}", std::process::id(), std::thread::current().id()));
     let _ = std::fs::create_dir_all(&dir);
     let bad: Vec<(usize, usize)> = case.get("bad").and_then(|x| x.as_array()).map(|a| a.iter().map(|e| (e[0].as_u64().unwrap() as usize, e[1].as_u64().unwrap() as usize)).collect()).unwrap_or_default();
+    static FRESH: std::sync::atomic::AtomicUsize = std::sync::atomic::AtomicUsize::new(0);
+    let fresh_dir = std::env::temp_dir().join(format!("tuverif-loader-{}-fresh-{}", std::process::id(), FRESH.fetch_add(1, std::sync::atomic::Ordering::SeqCst)));
+    let _ = std::fs::create_dir_all(&fresh_dir);
+    let mut fresh_files = vec![];
     let mut files = vec![];
     let mut corpus = String::new();
     for (k, n) in lens.iter().enumerate() {
@@ -103,6 +107,10 @@ pub fn exec(case: &Value) -> Vec<Value> {
         }
         std::fs::write(&p, s).unwrap();
         files.push(p.to_string_lossy().to_string());
+        // the same file under a path that no loader of this process has seen before (for the reference run): whatever the
+        // process remembers about the re-used path of the other runs must not show
+        std::fs::write(fresh_dir.join(format!("f{k}.jsonl")), std::fs::read(&p).unwrap()).unwrap();
+        fresh_files.push(fresh_dir.join(format!("f{k}.jsonl")).to_string_lossy().to_string());
     }
     // character 3-gram dictionary built by the library itself (many frequency ties)
     let chars = dir.join("chars.txt");
@@ -139,7 +147,7 @@ pub fn exec(case: &Value) -> Vec<Value> {
                 })));
             }
             let r = guard(|| {
-                train_loader(files.clone(), pipeline(pkind, &chars, &missp), strategy, threads, get_u(run, "buffer"),
+                train_loader(if get_bool(run, "ref") { fresh_files.clone() } else { files.clone() }, pipeline(pkind, &chars, &missp), strategy, threads, get_u(run, "buffer"),
                     get_u(run, "batch_limit"), if get_str(run, "ltype") == "padded" { BatchLimitType::PaddedItemSize } else { BatchLimitType::BatchSize },
                     512, shuffle, get_u(run, "prefetch"), get_bool(run, "sort"), if no_seed { None } else { Some(seed) }, get_u(run, "skip"), limit,
                     if world > 1 || get_bool(run, "distributed") { Some((rank, world)) } else { None }, epoch, get_u(run, "ff"), usize::MAX)
@@ -183,6 +191,7 @@ pub fn exec(case: &Value) -> Vec<Value> {
         }
     }
     let _ = std::fs::remove_dir_all(&dir);
+    let _ = std::fs::remove_dir_all(&fresh_dir);
     let bad_st = runs_out.iter().find(|r| r["st"] != "ok").map(|r| r["st"].as_str().unwrap().to_string());
     vec![json!({"st": bad_st.unwrap_or(st), "bad": bad.iter().map(|(f, l)| json!([f, l])).collect::<Vec<_>>(), "lens": lens, "strategy": strat_s, "seed": seed, "epoch": epoch, "pipeline": pkind,
                 "runs": runs_out, "case": case})]
